@@ -14,6 +14,12 @@ def run(chk):
     # the pinned tree's receive path (drop the call when inFlightDown fails) must still give the counter-example forced in A1
     p = vlib.run_tlc("MC_RegionClient", "MC_RegionClient_c03_pinned.cfg", timeout=600)
     chk.cov["model_counterexample_for_dropping_call_on_inFlightDown_error"] = str(p["violated"])
+    # fail() that completes the sent calls BEFORE it closes the socket must give the stranded call forced in A4 (and, through
+    # the top-level client, in C19's A5)
+    sf = vlib.run_tlc("MC_RegionClient", "MC_RegionClient_c03_swapfirst.cfg", timeout=600)
+    if sf["violated"] != "ExactlyOnceWhenDown":
+        raise vlib.MachineryError("MC_RegionClient_c03_swapfirst: expected the ExactlyOnceWhenDown counter-example, got %r" % (sf["violated"],))
+    chk.cov["model_counterexample_for_completing_before_closing_the_socket"] = "ExactlyOnceWhenDown"
     wd, res, t = rcshared.run_driver(chk, "TestVerifC03", "c03_result.json",
                                      dict(VERIF_N="600" if thorough else "60", VERIF_TIER=chk.tier), timeout=1700)
     for v in res["violations"] or []:
